@@ -514,6 +514,7 @@ def build_tree_contract(w):
         w.ghost_steps = w.ghost_steps + n
         w.ghost_acc = w.ghost_acc + AC(lo, hi)
         w.contract_trees.append((tree, prop, lo, hi))
+        w.__dict__.setdefault("bt_outcomes", []).append(outcome)
         if outcome == 1:
             # complete tree whose own top-level criterion fired (only possible for depth >= 1)
             ctx.assume(depth >= 1)
@@ -699,6 +700,7 @@ def dynamic_sample(run, it):
         w.contract_trees = []
         w.aborted = False
         w.bt_calls = []
+        w.bt_outcomes = []
         ctx.assume(z3.Or(d_in == 1, d_in == -1))
         ctx.assume(w.h_init == H(s0))
         if w.slice:
@@ -795,9 +797,16 @@ def dynamic_sample(run, it):
                            core.DISCHARGED if (nxt is rec["next"] and len(draws) == 1) else core.FAILED, "pyvc")
                 return
             new_tree, new_prop, lo_n, hi_n = w.contract_trees[0]
-            if len(draws) == 1:
-                # complete new sub-tree rejected by its own criterion: discarded without a selection draw
-                ctx.run.ob(tag + "/iteration/terminated-sub-tree-is-discarded" + c, core.DISCHARGED if nxt is rec["next"] else core.FAILED, "pyvc")
+            terminated = bool(getattr(w, "bt_outcomes", None)) and w.bt_outcomes[-1] == 1
+            if terminated or len(draws) == 1:
+                # complete new sub-tree rejected by its own criterion: discarded without a selection draw and without being merged -- at EVERY depth,
+                # also on the last doubling the depth limit allows (its states cannot reach the merged tree from their side, so keeping them breaks
+                # the symmetry of the tree-selection probability)
+                kept = nxt is rec["next"] and len(draws) == 1 and ex.env.lookup("tree") is rec["tree"]
+                ctx.run.ob(tag + "/iteration/terminated-sub-tree-is-discarded" + c, core.DISCHARGED if kept else core.FAILED, "pyvc",
+                           detail="" if kept else f"_build_tree reported termination for a complete sub-tree but sample() went on: {len(draws) - 1} selection draw(s), "
+                           f"tree {'unchanged' if ex.env.lookup('tree') is rec['tree'] else 'merged'}, candidate {'kept' if nxt is rec['next'] else 'replaced'}",
+                           text="a new sub-tree whose own criterion fired is never merged or selected from, whatever the depth")
                 return
             ok = len(draws) == 2
             ctx.run.ob(tag + "/iteration/one-selection-draw" + c, core.DISCHARGED if ok else core.FAILED, "pyvc", detail=str(len(draws)))
